@@ -509,6 +509,50 @@ func (pr *Prover) key(v ssa.Value) string {
 	return k
 }
 
+// paramSpill: al is the private home of a by-value parameter (array or
+// struct) — stored once with the parameter, otherwise only read.
+func paramSpill(al *ssa.Alloc) *ssa.Parameter {
+	var prm *ssa.Parameter
+	n := 0
+	for _, r := range *al.Referrers() {
+		switch x := r.(type) {
+		case *ssa.Store:
+			if x.Addr != ssa.Value(al) {
+				return nil
+			}
+			n++
+			p, ok := x.Val.(*ssa.Parameter)
+			if !ok {
+				return nil
+			}
+			prm = p
+		case *ssa.UnOp, *ssa.DebugRef:
+		case *ssa.IndexAddr:
+			for _, r2 := range *x.Referrers() {
+				switch r2.(type) {
+				case *ssa.UnOp, *ssa.DebugRef:
+				default:
+					return nil
+				}
+			}
+		case *ssa.FieldAddr:
+			for _, r2 := range *x.Referrers() {
+				switch r2.(type) {
+				case *ssa.UnOp, *ssa.DebugRef:
+				default:
+					return nil
+				}
+			}
+		default:
+			return nil
+		}
+	}
+	if n != 1 {
+		return nil
+	}
+	return prm
+}
+
 func (pr *Prover) addrKeyRaw(a ssa.Value, ver func(ssa.Instruction) string) string {
 	switch x := a.(type) {
 	case *ssa.FieldAddr:
@@ -541,6 +585,23 @@ func (pr *Prover) keyRaw(v ssa.Value, ver func(ssa.Instruction) string) string {
 		if x.Op == token.MUL {
 			if f, ok := pr.fwd[x]; ok {
 				return pr.keyRaw(f, ver)
+			}
+			// element / field of a by-value parameter kept in a private local
+			switch a := x.X.(type) {
+			case *ssa.IndexAddr:
+				if al, ok := a.X.(*ssa.Alloc); ok {
+					if k, isC := constInt(a.Index); isC {
+						if prm := paramSpill(al); prm != nil {
+							return fmt.Sprintf("p:%s[%d]", prm.Name(), k)
+						}
+					}
+				}
+			case *ssa.FieldAddr:
+				if al, ok := a.X.(*ssa.Alloc); ok {
+					if prm := paramSpill(al); prm != nil {
+						return fmt.Sprintf("p:%s.%d", prm.Name(), a.Field)
+					}
+				}
 			}
 			if pr.cur != nil {
 				if _, ok := pr.cur.isField(x.X, pr.cur.D); ok {
@@ -1501,6 +1562,14 @@ func (pr *Prover) callLin(call *ssa.Call) (Lin, bool) {
 						sub, found = pr.lin(args[i]), true
 					} else if a == "len(p:"+prm.Name()+")" {
 						sub, found = pr.lenOf(args[i]), true
+					} else if pre := "len(p:" + prm.Name(); strings.HasPrefix(a, pre) && (a[len(pre)] == '[' || a[len(pre)] == '.') {
+						// length of an element / field of a by-value aggregate argument
+						ak := pr.key(args[i])
+						if strings.HasPrefix(ak, "p:") {
+							na := "len(" + ak + a[len(pre):]
+							pr.atomRange(na, 0, math.MaxInt64)
+							sub, found = linAtom(na), true
+						}
 					}
 				}
 				if !found {
